@@ -190,4 +190,7 @@ def check(ctx, R):
         for ver in ("1", "2"):
             single_answer(R, "C07.g", c.yrs.fn("yrs::transaction::TransactionMut::encode_update_v" + ver), r"EncoderV%s::new$" % ver, "the bytes of its EncoderV%s" % ver)
     R.run("C07.g", _answers, ctx)
+    from . import c13 as _c13, c16 as _c16
+    R.run("C07.h", lambda R, c: _c13.rule_c(R, c, "C07.h"), ctx)
+    R.run("C07.i", lambda R, c: _c16.rule_e(R, c, "C07.i"), ctx)
     return {}
